@@ -27,8 +27,8 @@
  *     -fsanitize=undefined and CBMC's overflow/shift checks).
  *
  * Alignment: the model types have alignment 1.  The aligned load/store forms
- * (_mm_load_si128, ...) call VM_ALIGN_CHECK(p, n), a no-op by default; a
- * harness may define it (e.g. to __CPROVER_assert) before including this file.
+ * (_mm_load_si128, ...) call VM_ALIGN_CHECK(p, n): under CBMC an assertion on the
+ * pointer offset, a no-op elsewhere; a harness may define it before including this file.
  */
 #ifndef VERIF_MODEL_IMMINTRIN_H
 #define VERIF_MODEL_IMMINTRIN_H
@@ -38,7 +38,13 @@
 #include <string.h>
 
 #ifndef VM_ALIGN_CHECK
-#define VM_ALIGN_CHECK(p, n) ((void)(p))
+# ifdef VERIF_CBMC
+/* under CBMC the aligned forms assert that the pointer's offset inside its object is a multiple of the vector alignment (object
+ * bases are taken as sufficiently aligned): a kernel that uses an aligned load/store on a caller pointer fails for misaligned callers */
+#  define VM_ALIGN_CHECK(p, n) __CPROVER_assert(__CPROVER_POINTER_OFFSET(p) % (n) == 0, "aligned vector load/store on a pointer whose offset is a multiple of the vector alignment")
+# else
+#  define VM_ALIGN_CHECK(p, n) ((void)(p))
+# endif
 #endif
 
 /* ==========================================================================
